@@ -347,6 +347,10 @@ func (self Reflect) listMap(v reflect.Value) node.Node {
 		OnNext: func(r node.ListRequest) (node.Node, []val.Value, error) {
 			var item reflect.Value
 			key := r.Key
+			if (r.New || key != nil) && !isKeyValid(key) {
+				// a Go map files entries under their key: a list without one needs a slice
+				return nil, nil, fmt.Errorf("%w. list '%s' has no key, it cannot be kept in a map", fc.BadRequestError, r.Meta.Ident())
+			}
 			if r.New {
 				item = self.create(e, nil)
 				keyVal := mapKeyValue(key[0])
@@ -478,6 +482,10 @@ func (self Reflect) create(t reflect.Type, m meta.Meta) reflect.Value {
 		switch x := m.(type) {
 		case *meta.List:
 			keyMeta := x.KeyMeta()
+			if len(keyMeta) == 0 {
+				// nothing to file the entries under in a map
+				return reflect.ValueOf(make([]interface{}, 0))
+			}
 			if len(keyMeta) == 1 {
 				// support some common key types, anything to unusual should have
 				// custom implementation and would default to map[interface{}]interface{}
